@@ -3,6 +3,7 @@ from __future__ import annotations
 
 import ast
 
+from ..amatch import AM
 from ..algebra import NotPolynomial, Poly, ToPoly
 from ..effects import Effects
 from ..report import AnalysisError
@@ -43,13 +44,17 @@ def rule_a(ctx):
     collect(f.node.body, ())
     ctx.ob(R, f.qname, "every intermediate is assigned once per branch", not multi, str(sorted(multi)), f.node)
 
+    sb = [d for d in defs.values() if d[0] == "_subtract_background"]
+    ctx.need(len(sb) == 1 and len(sb[0][1]) == 1 and sb[0][1][0].isidentifier(), f"{f.qname}: the call self._subtract_background(<working image>) was not found")
+    PROBE = sb[0][1][0]
+
     def chain_for(branch):
         """follow the value chain from the probe; returns list of stage names"""
         by_arg = {}
         for (nme, cond), (stage, args, node) in defs.items():
             if all(c in branch or c[0] != "self.first_restoration_then_model" for c in cond) and not any(c[0] == "self.first_restoration_then_model" and c not in branch for c in cond):
                 by_arg.setdefault(args[0] if args else None, []).append((stage, nme, args))
-        cur = "probe_img"
+        cur = PROBE
         out = []
         for _ in range(10):
             nxt = by_arg.get(cur, [])
@@ -186,7 +191,10 @@ def rule_c(ctx):
     f = m.method(k, "__call__")
     p = f.params[1]
     ctx.instance(R)
-    probes = [norm(s.value) for s in ast.walk(f.node) if isinstance(s, ast.Assign) and norm(s.targets[0]) == "probe_img"]
+    sb = [c for c in ast.walk(f.node) if isinstance(c, ast.Call) and norm(c.func) == "self._subtract_background" and len(c.args) == 1 and isinstance(c.args[0], ast.Name)]
+    ctx.need(len(sb) == 1, f"{f.qname}: the call self._subtract_background(<working image>) was not found")
+    work = sb[0].args[0].id
+    probes = [norm(s.value) for s in ast.walk(f.node) if isinstance(s, ast.Assign) and norm(s.targets[0]) == work]
     ctx.ob(R, f.qname, "working image is copy.deepcopy(probe) on every path", len(probes) >= 1 and all(v.startswith(f"copy.deepcopy({p})") for v in probes), str(probes), f.node)
     E = Effects(m)
     ev = E.events_on(f, p)
@@ -205,12 +213,16 @@ def rule_d(ctx):
     f = m.method(m.cls(MOD, "ConcentrationAnalysis"), "__call__")
     p = f.params[1]
     ctx.instance(R)
-    env = {norm(s.targets[0]): norm(s.value) for s in f.node.body if isinstance(s, ast.Assign)}
-    ctx.ob(R, f.qname, "metadata = probe.metadata()", env.get("metadata") == f"{p}.metadata()", env.get("metadata", ""), f.node)
-    ctx.ob(R, f.qname, "scalar iff result has one axis fewer than the probe", env.get("is_scalar") == f"len(concentration.shape) == len({p}.shape) - 1", env.get("is_scalar", ""), f.node)
-    fin = [s for s in f.node.body if isinstance(s, ast.If) and norm(s.test) == "is_scalar"]
-    ok = len(fin) == 1 and [norm(x) for x in fin[0].body] == ["return darsia.ScalarImage(concentration, **metadata)"] and [norm(x) for x in fin[0].orelse] == [f"return type({p})(concentration, **metadata)"]
-    ctx.ob(R, f.qname, "ScalarImage when reduced, type(probe) otherwise", ok, "", f.node)
+    am = AM(f)
+    ctx.ob(R, f.qname, "metadata = probe.metadata()", am.has(f.node, f"metadata = {p}.metadata()") is not None, "", f.node)
+    ctx.ob(R, f.qname, "scalar iff result has one axis fewer than the probe", am.has(f.node, f"is_scalar = len(concentration.shape) == len({p}.shape) - 1") is not None, str(am.show()), f.node)
+    fin = [s for s in f.node.body if isinstance(s, ast.If) and am.eq(s.test, "is_scalar")]
+    ok = len(fin) == 1 and am.eq_block(fin[0].body, ["return darsia.ScalarImage(concentration, **metadata)"]) and am.eq_block(fin[0].orelse, [f"return type({p})(concentration, **metadata)"])
+    n_ret = sum(1 for r in ast.walk(f.node) if isinstance(r, ast.Return))
+    ctx.ob(R, f.qname, "ScalarImage when reduced, type(probe) otherwise (the only two returns)", ok and n_ret == 2, str(am.show()), f.node)
+    # the packaged array is the end of the stage chain (C13.a checks the chain itself)
+    last = [s for s in ast.walk(f.node) if isinstance(s, ast.Assign) and isinstance(s.targets[0], ast.Name) and s.targets[0].id == am.actual("concentration")]
+    ctx.ob(R, f.qname, "the packaged array is produced by the last stage of either order", len(last) == 2 and {norm(s.value.func) for s in last if isinstance(s.value, ast.Call)} == {"self._convert_signal", "self._restore_signal"}, str([norm(s) for s in last]), f.node)
     ctx.floor(R, 1)
 
 
